@@ -657,7 +657,9 @@ def make_pipeline_from_args(  # noqa: C901
                 paths = paths[:1]
             else:
                 interleaved = False
-            record_writer = outfiles.open_record_writer(*paths, interleaved=interleaved)
+            record_writer = outfiles.open_record_writer(
+                *paths, interleaved=interleaved, exclusive=True
+            )
         if paired:
             step = PairedEndFilter(
                 predicate1, predicate2, record_writer, pair_filter_mode=pair_filter_mode
